@@ -143,6 +143,10 @@ def run_one(exe, d, cf, seed):
                 recs.append({k: v for k, v in x.items() if k not in ("q", "th")})
             elif x["e"] in ("it.end", "h.end"):
                 recs.append({"e": "work"})
+                if x["e"] == "h.end":
+                    recs.append({"e": "h.end", "step": x["step"]})
+            elif x["e"] in ("run.init", "h.begin", "dump.begin", "dump.end") and cf["mode"] != "ion":
+                recs.append({"e": x["e"], "step": x.get("step", 0)})
         snaps = sorted(int(re.search(r"snap_(\d+)\.hdf5$", f).group(1)) for f in glob.glob(os.path.join(d, "snap_*.hdf5")))
         backs = sorted(int(re.search(r"restart\.(\d+)\.back$", f).group(1)) for f in glob.glob(os.path.join(d, "restart.*.back")))
         recs.append({"e": "exit", "rc": rc, "outputs": found, "snaps": snaps, "backs": backs,
@@ -222,6 +226,17 @@ def run(c):
         recs, info = results[k][1]
         tags = re.findall(r"/\\ bad = (\{[^}]*\})", r.out)
         cf = sample[k]
+        if st == "violated:LoopOrder":
+            # Layer B only: the description of the outer loop is out of date; this run is not judged further
+            c.model_drift("the outer loop of configuration %s does not follow the loop grammar of Trace_RunLifecycle near record %d"
+                          % (cf, pos))
+            nxt = [s0 for s0, kk in starts if s0 > pos]
+            if not nxt:
+                todo = []
+                break
+            offset = min(nxt) - 1
+            todo = allrecs[offset:]
+            continue
         comp = ",".join(sorted(key for key, v in cf.items() if v == 1 and key not in ("nthr", "first", "maxb")))
         c.violation("lifecycle:%s:mode=%s:components=%s" % (st, cf["mode"], comp),
                     "run of configuration %s violates Layer A (%s, tags %s): exit %s, outputs found %s of %s" % (
